@@ -4,13 +4,17 @@ EXTENDS Ephemeral, TLC, Json
 
 CONSTANTS
     KeepHist,       \* TRUE in the export configs only (the history multiplies states)
+    FloodLens,      \* machine 4: lengths of runs of skipped items in front of one valid message
+    FloodCap,       \* machine 4: capacity of the channel (a power of two, as tokio rounds up)
     AtomicPolls     \* TRUE in the export configs: the network does not act between two inner polls of
                     \* one poll_next call, so that a behaviour maps 1:1 onto calls of the real poll_next
-                    \* (the exhaustive configs explore those interleavings too)
+                    \* (the exhaustive configs explore those interleavings too); likewise nothing
+                    \* happens between the steps one poll of a `publish` future performs
 
 VARIABLES hist,
           fcls    \* machine 2 only: the class handed to from_bytes
-mcvars == <<cap, chan, sent, closed, registered, task, yielded, dropped, skipped, pts, published, hist, fcls>>
+mcvars == <<cap, chan, sent, closed, registered, task, skips, yielded, dropped, skipped,
+            pts, gcap, ppc, held, waitq, gq, drawn, published, hist, fcls>>
 
 Log(h) == hist' = (IF KeepHist THEN Append(hist, h) ELSE hist) /\ UNCHANGED fcls
 NetMayAct == AtomicPolls => task # "polling"
@@ -77,24 +81,96 @@ ExportClass ==
     PrintT(<<"REPLAY", ToJson([kind |-> "class", cls |-> fcls, accept |-> Accept(fcls)])>>)
 
 ---------------------------------------------------------------------------
-(* Machine 3: publisher                                                     *)
+(* Machine 4: floods - a long run of items the subscription skips, all already queued when the  *)
+(* task is polled, with ONE valid message behind them (deterministic: only the executor acts).   *)
+(* With n = FloodCap - 1 also the overflow case: three more items were delivered before and       *)
+(* overwritten, the receiver sees Lagged first.                                                  *)
+
+RejectClasses == {c \in AllClasses : ~Accept(c)}
+
+FloodChan(c, n, over) ==
+    [k \in 1..n |-> [cls |-> c, id |-> over + k]] \o <<[cls |-> "intact", id |-> over + n + 1]>>
+
+FloodInit ==
+    /\ \E c \in RejectClasses, n \in FloodLens, lag \in BOOLEAN :
+          /\ lag => n = FloodCap - 1
+          /\ LET over == IF lag THEN 3 ELSE 0
+             IN /\ chan = (IF lag THEN <<Lag>> ELSE <<>>) \o FloodChan(c, n, over)
+                /\ sent = over + n + 1
+                /\ dropped = 1..over
+          /\ fcls = c
+    /\ cap = FloodCap /\ closed = FALSE /\ registered = FALSE /\ task = "runnable" /\ skips = 0
+    /\ yielded = <<>> /\ skipped = {}
+    /\ PubInit /\ hist = <<>>
+
+FloodNext == MCPoll
+FloodSpec == FloodInit /\ [][FloodNext]_mcvars /\ WF_mcvars(MCPoll)
+
+\* C17 on a flood: the valid message behind the run is yielded, whatever the length of the run
+C17_FloodEventuallyYielded == <>(yielded # <<>>)
+
+FloodDone == task = "parked" /\ chan = <<>>
+ExportFlood ==
+    FloodDone => PrintT(<<"REPLAY", ToJson([kind |-> "flood", cls |-> fcls, cap |-> cap,
+                                            n |-> Cardinality(skipped), over |-> Cardinality(dropped),
+                                            yielded |-> Ids(yielded)])>>)
+
+---------------------------------------------------------------------------
+(* Machine 3: publisher handles over the bounded channel to gossip          *)
+
+\* some handle is inside a poll of its publish future (between two steps one poll performs)
+MidPoll == \E h \in Handles : ppc[h] \in {"drawn", "signed", "sent"}
+MayStartPoll == AtomicPolls => ~MidPoll
 
 MCCreateStream ==
     /\ pts = NoTs
-    /\ \E w \in Wall : CreateStream(w) /\ Log([ev |-> "CreateStream", w |-> w, ts |-> <<w, 0>>])
+    /\ \E w \in Wall : CreateStream(w) /\ Log([ev |-> "CreateStream", w |-> w])
     /\ UNCHANGED subvars
 
-MCPublish ==
+MCDrawTs ==
+    /\ pts # NoTs /\ MayStartPoll
+    /\ \E h \in Handles, w \in Wall :
+          DrawTs(h, w) /\ Log([ev |-> "DrawTs", h |-> h, w |-> w, ts |-> Increment(pts, w)])
+    /\ UNCHANGED subvars
+
+MCSignEncode ==
     /\ pts # NoTs
-    /\ \E w \in Wall : Publish(w) /\ Log([ev |-> "Publish", w |-> w, ts |-> Increment(pts, w)])
+    /\ \E h \in Handles : SignEncode(h) /\ Log([ev |-> "SignEncode", h |-> h])
     /\ UNCHANGED subvars
 
-PubMCNext == MCCreateStream \/ MCPublish
+MCSendTry ==
+    /\ pts # NoTs
+    /\ \E h \in Handles : SendTry(h) /\ Log([ev |-> "SendTry", h |-> h, waits |-> ~Room])
+    /\ UNCHANGED subvars
+
+MCDrain ==
+    /\ MayStartPoll
+    /\ Drain /\ Log([ev |-> "Drain", ts |-> gq[1].ts, h |-> gq[1].h, woke |-> (waitq # <<>>)])
+    /\ UNCHANGED subvars
+
+MCSendResume ==
+    /\ MayStartPoll
+    /\ \E h \in Handles : SendResume(h) /\ Log([ev |-> "SendResume", h |-> h])
+    /\ UNCHANGED subvars
+
+MCReturn ==
+    /\ pts # NoTs
+    /\ \E h \in Handles : Return(h) /\ Log([ev |-> "Return", h |-> h])
+    /\ UNCHANGED subvars
+
+PubMCNext == MCCreateStream \/ MCDrawTs \/ MCSignEncode \/ MCSendTry \/ MCDrain \/ MCSendResume \/ MCReturn
 PubMCSpec == MCInit /\ [][PubMCNext]_mcvars
 
 C16_TimestampsStrictlyIncrease == TimestampsStrictlyIncrease
 C16_PublishedDistinct == PublishedDistinct
+C16_PerHandleInOrder == PerHandleInOrder
+C16_ClockIsLastDrawn == ClockIsLastDrawn
+C16_ClockNeverRegresses == [][pts # NoTs => ~TLess(pts', pts)]_mcvars
 
+\* branch reached (negation used as invariant by hand, see NOTES): two publishes overlapped at the await
+NeverTwoInFlight == Cardinality({h \in Handles : ppc[h] # "idle"}) < 2
+
+PubDone == Len(drawn) = MaxPublish /\ gq = <<>> /\ \A h \in Handles : ppc[h] = "idle"
 ExportPub ==
-    Len(published) = MaxPublish => PrintT(<<"REPLAY", ToJson([kind |-> "pub", steps |-> hist])>>)
+    PubDone => PrintT(<<"REPLAY", ToJson([kind |-> "pub", gcap |-> gcap, steps |-> hist])>>)
 ===========================================================================
